@@ -232,6 +232,7 @@ func main() {
 	genResets(root, out)
 	genWpRegions(root, out)
 	genPipeWrite(repo, out)
+	genPoolShape(root, out)
 }
 
 var tableNames = []string{
